@@ -20,6 +20,7 @@ type Block struct {
 	DistLens   []uint8
 	Symbols    int
 	Matches    int
+	DistHist   [30]int // matches per distance symbol (informational)
 	Incomplete bool // a code of this block is incomplete
 }
 
@@ -224,6 +225,7 @@ func (s *st) codes(lit, dist *code, blk *Block) {
 				s.res.MaxDist = d
 			}
 			blk.Matches++
+			blk.DistHist[ds]++
 			for i := 0; i < length; i++ {
 				s.out = append(s.out, s.out[len(s.out)-d])
 			}
